@@ -50,6 +50,9 @@ for kind, kname in ((1, 'free_memory_list'), (2, 'ordered_free_memory_list')):
     fl_jobs(kind, kname, 10, 'release', 'thorough', NS_SPLITS_QUICK + NS_SPLITS_MORE, timeout=1800)
     fl_jobs(kind, kname, 5, 'release', 'quick', NS_SPLITS_QUICK, nb=2, nb2=2)
     fl_jobs(kind, kname, 5, 'baseline', 'thorough', NS_SPLITS_QUICK + NS_SPLITS_MORE, nb=2, nb2=2, timeout=900)
+# four slots: two free nodes behind the released one are needed for the forward/backward position search to go wrong
+for op in (1, 2):
+    fl_jobs(2, 'ordered_free_memory_list', op, 'release', 'quick', NS_SPLITS_QUICK[:1], nb=4, lays=((0, 0), (1, 0)))
 # fragmented lists: a run behind a gap needs at least 4 slots
 for kind, kname in ((1, 'free_memory_list'), (2, 'ordered_free_memory_list')):
     fl_jobs(kind, kname, 3, 'release', 'quick', NS_SPLITS_QUICK[:1], nb=4, lays=((0, 0),))
@@ -253,3 +256,21 @@ for case, (nm, props) in BL.items():
         add('blocks-%d-%s' % (case, cfg), props, 'blocks', 'blocks_step.c', config=cfg, defines=['CASE=%d' % case, 'HEAP_SIZE=384', 'IR_HOOK_MMAP', 'IR_HOOK_MALLOC'],
             unwind=8, timeout=300, tier=tier, desc='%s: one operation from an arbitrary valid state (allocate, LIFO release, out-of-order release, move + moved-from destructor, destructor)' % nm,
             bounds='<= 4 blocks of 1..2 pages, page size 32 (constant of the query), OS calls may fail, node size <= 255')
+
+# ---------------------------------------------------------------- memory_pool<node_pool | array_pool> inductive steps
+PO_OPS = {1: 'ctor', 2: 'allocate_node', 3: 'try_allocate_node', 4: 'deallocate_node', 5: 'try_deallocate_node', 6: 'dtor', 7: 'allocate_array', 8: 'deallocate_array', 9: 'move'}
+PO_PROPS = {1: ['C01', 'C03', 'C05', 'C18'], 2: ['C01', 'C02', 'C03', 'C04', 'C15', 'C18'], 3: ['C01', 'C03', 'C04'], 4: ['C01', 'C04', 'C15', 'C18'], 5: ['C08', 'C04'],
+            6: ['C05', 'C15'], 7: ['C01', 'C03', 'C04', 'C15'], 8: ['C04', 'C15'], 9: ['C12', 'C05', 'C15']}
+def po_jobs(kind, op, config, tier, nsz=16, npb=2, timeout=600, mem=12):
+    heap = (2 * 96 + 3 * ((16 + npb * nsz + 15) // 16 * 16) + 16 + 4 * nsz + 15) // 16 * 16
+    add('pool-%s-%s-%s-ns%d-n%d' % (kind, PO_OPS[op], config, nsz, npb), PO_PROPS[op], 'pool2', 'pool_step.c', config=config,
+        defines=['POOLK=%s' % kind, 'OP=%d' % op, 'NSZ=%d' % nsz, 'NPB=%d' % npb, 'MAXB=4', 'HEAP_SIZE=%d' % heap], unwind=2 * npb + 8, timeout=timeout, tier=tier, mem_gb=mem,
+        desc='memory_pool<%s>::%s from an arbitrary valid state' % ('node_pool' if kind == 'pn' else 'array_pool', PO_OPS[op]),
+        bounds='1..2 used blocks of %d nodes of %d bytes, every node LIVE or FREE, symbolic chain order / last_dealloc position, symbolic next block size and leak counter, upstream may fail' % (npb, nsz))
+for kind in ('pn', 'pa'):
+    for op in (1, 2, 3, 4, 5, 6, 9) + ((7, 8) if kind == 'pa' else ()):
+        po_jobs(kind, op, 'release', 'quick')
+        po_jobs(kind, op, 'baseline', 'thorough', timeout=3000, mem=24)
+        po_jobs(kind, op, 'release', 'thorough', nsz=24, npb=3, timeout=3000, mem=24)
+for op in (4, 6, 9):
+    po_jobs('pn', op, 'baseline', 'quick')
